@@ -195,8 +195,29 @@ func opVariants(o Op) []Op {
 			o2.Scripts = append(append([]Script{}, o.Scripts[:j]...), o.Scripts[j+1:]...)
 			out = append(out, o2)
 		}
+	case "S":
+		// a use of the called component or of the block dropped or made smaller
+		parts := []*[]Op{&o.Pre, &o.Body, &o.Post}
+		for pi := range parts {
+			l := *parts[pi]
+			for j := range l {
+				o2 := o
+				p2 := []*[]Op{&o2.Pre, &o2.Body, &o2.Post}
+				*p2[pi] = append(append([]Op{}, l[:j]...), l[j+1:]...)
+				out = append(out, o2)
+			}
+			for j := range l {
+				for _, v := range opVariants(l[j]) {
+					o2 := o
+					p2 := []*[]Op{&o2.Pre, &o2.Body, &o2.Post}
+					*p2[pi] = append([]Op{}, l...)
+					(*p2[pi])[j] = v
+					out = append(out, o2)
+				}
+			}
+		}
 	case "O":
-		if o.Fixed {
+		if o.Fixed || o.Self {
 			return nil
 		}
 		for j := 1; j < len(o.Body); j++ {
@@ -313,7 +334,7 @@ func newFamily(name string) *family {
 }
 
 func Run(c *core.Ctx) {
-	c.Rule = "histories over 4 scripts (one sharing its name with a class id, one sometimes without a call) x 4 component classes x 4 plain names (one equal to a class id) in all 17 container forms (nested to depth 2) x context derivations (WithNonce, WithChildren, ClearChildren, context.WithValue, context.WithCancel, a request carrying the context sent through a further NewCSSMiddleware with its own classes and path: stacked on the request's middleware or below an initialised context, before any render, after renders, after WithNonce) at arbitrary points - before the first registration, between uses, nested - with every use going through any of the Go contexts derived so far; 3 once handles (block or fixed component, bodies nested to depth 2, possibly using their own handle) x 1-3 contexts (plain or through NewCSSMiddleware with a random class subset, with or without nonce); single-form and form-pair sweeps, all histories up to the tier's length over a 13-use alphabet, random histories; 2-4 page requests through ONE middleware instance (registered and unregistered classes and scripts, pages rendered inside the handler one after the other and concurrently, every pair of the 13 uses split over two requests); probe templates include elements whose class and on* attributes sit under attribute-level if/else blocks nested to depth 3, among constant attributes, and elements all of whose attributes are constant except one or two expression attributes placed at a chosen branch path (then-only, else-only, else of else, ...); distinct non-trivial = distinct histories in which some item is used at least twice in one context (suppression matters)"
+	c.Rule = "histories over 4 scripts (one sharing its name with a class id, one sometimes without a call) x 4 component classes x 4 plain names (one equal to a class id) in all 17 container forms (nested to depth 2) x context derivations (WithNonce, WithChildren, ClearChildren, context.WithValue, context.WithCancel, a request carrying the context sent through a further NewCSSMiddleware with its own classes and path: stacked on the request's middleware or below an initialised context, before any render, after renders, after WithNonce) at arbitrary points - before the first registration, between uses, nested - with every use going through any of the Go contexts derived so far; 3 once handles (given a block, built with a component and asked for by self-closing calls, or without component and called self-closing; bodies nested to depth 2, possibly using their own handle) x calls of components with or without a { children... } slot, with a block or self-closing, nested to depth 2 and placed before/after/inside once renders (the children slot of the context: WithChildren / ClearChildren / GetChildren / renderChildren as generated code uses them) x 1-3 contexts (plain or through NewCSSMiddleware with a random class subset, with or without nonce); single-form and form-pair sweeps, all histories up to the tier's length over a 17-use alphabet, random histories; 2-4 page requests through ONE middleware instance (registered and unregistered classes and scripts, pages rendered inside the handler one after the other and concurrently, every pair of the 17 uses split over two requests); probe templates include elements whose class and on* attributes sit under attribute-level if/else blocks nested to depth 3, among constant attributes, and elements all of whose attributes are constant except one or two expression attributes placed at a chosen branch path (then-only, else-only, else of else, ...); distinct non-trivial = distinct histories in which some item is used at least twice in one context (suppression matters)"
 	c.Trusted = append(c.Trusted,
 		"specification spec/RegistrySpec.v (abstract log with registrations, at_most_once, before_first_use, never_inlined_once_registered, wanted uses, held classes, check_log)",
 		"the reading of a document back into definitions and uses, and the placing of a further middleware's registrations at the document offset where the context passed through it (harness readBackM; cross-checked against the model's own log on every history)",
@@ -352,6 +373,7 @@ func Run(c *core.Ctx) {
 	s0, s1 := mkScript(r, 0), mkScript(r, 1)
 	k0, k1 := pc(mkCls(0)), pc(mkCls(3))
 	kk0 := Class{Kind: "K", C: k0}
+	fx := []Op{{Tag: "T", Text: "[h4]"}, {Tag: "R", S: &s1}}
 	alpha := []Op{
 		{Tag: "R", S: &s0},
 		{Tag: "R", S: &s1},
@@ -366,6 +388,12 @@ func Run(c *core.Ctx) {
 		{Tag: "O", H: 2, Body: []Op{{Tag: "T", Text: "[h2]"}, {Tag: "E", Forms: []Form{{Tag: "d", C: k0}}, Scripts: []Script{s1}}, {Tag: "O", H: 1, Body: []Op{{Tag: "T", Text: "[h1]"}}}}},
 		{Tag: "E", Forms: []Form{{Tag: "m", K: &kk0}, {Tag: "b", N: "x"}}, Scripts: []Script{s0, s0}},
 		{Tag: "O", H: 3, Body: []Op{{Tag: "T", Text: "[h3]"}, {Tag: "O", H: 3, Body: []Op{{Tag: "T", Text: "[h3]"}}}, {Tag: "R", S: &s1}}},
+		// a handle built with a component, asked for by a self-closing call; a layout component with a children slot
+		// called without and with a block (the block asks for the handle as well); a handle without component
+		{Tag: "O", H: 4, Fixed: true, Body: fx},
+		{Tag: "S", Slot: true, Pre: []Op{{Tag: "T", Text: "<p>"}}, Post: []Op{{Tag: "T", Text: "</p>"}}},
+		{Tag: "S", Slot: true, Block: true, Pre: []Op{{Tag: "T", Text: "<p>"}}, Body: []Op{{Tag: "O", H: 4, Fixed: true, Body: fx}, {Tag: "E", Scripts: []Script{s0}}}, Post: []Op{{Tag: "T", Text: "</p>"}}},
+		{Tag: "O", H: 1, Self: true},
 	}
 	hs = nil
 	maxLen := c.N(3, 4)
@@ -429,6 +457,9 @@ func Run(c *core.Ctx) {
 		for _, s := range mwSituations(h) {
 			c.Hist("exhaustive: " + s)
 		}
+		for _, s := range slotSituations(h) {
+			c.Hist("exhaustive: " + s)
+		}
 	}
 	c.Extra["exhaustive_alphabet"] = len(alpha)
 	c.Extra["exhaustive_max_len"] = maxLen
@@ -459,6 +490,9 @@ func Run(c *core.Ctx) {
 			c.Hist("random: length 41-2000")
 		}
 		for _, s := range mwSituations(h) {
+			c.Hist("random: " + s)
+		}
+		for _, s := range slotSituations(h) {
 			c.Hist("random: " + s)
 		}
 		for _, cf := range h.Cfgs {
